@@ -19,7 +19,8 @@ RULE = ('random signatures over primitives, arrays (up to 12 items, two-digit in
         'query strings from the reference flattener x permutations of the pairs x {contiguous, sparse} indices x hier_delim {., /, :} x '
         'strict_arrays x validator {None, soft}; plus a ragged-array workload (all 343 member-subset combinations over three array items, '
         'random member subsets over 2/4/11/12 items, top-level and nested arrays, strict_arrays on and off); non-trivial = function entered with a non-null argument; distinct by '
-        '(configuration, argument shapes, permutation class, index class).')
+        '(configuration, argument shapes, permutation class, index class).'
+        ' Also: a fixed chain of a class that contains itself (known finding), Decimal digits facets.')
 ASSUMPTIONS = [
     'POST form bodies need werkzeug, which is not installed: only GET query strings are driven',
     'pairs with the same key (primitive arrays) keep their relative order under permutation: their order IS the array order',
